@@ -287,6 +287,15 @@ Theorem C20_ini_named_file_valid_toml_refuted :
   = pydoctor_parse_args [] [val_tok (45 :: 45 :: k_project_name) k1_value].
 Proof. split; [reflexivity | split; [vm_compute; discriminate | vm_compute; reflexivity]]. Qed.
 
+(* no history: the composite parser keeps no state between parses, so what is read from a config file is
+   composite_parse of that file, whichever files the same process has read before (several default files in one
+   directory, several --config files, several Options.from_args calls) *)
+Theorem C20_parse_history_independent :
+  forall (sections : list text) (split : bool) (before : list file_view) (f : file_view) (after : list file_view),
+    nth (length before) (parse_history sections split pydoctor_parsers (before ++ f :: after)) PError
+    = composite_parse sections split f.
+Proof. exact parse_history_independent. Qed.
+
 (* ================================================================== section lookup *)
 
 (* TOML: the first of the configured sections that exists and is a non-empty table is used, alone *)
